@@ -554,6 +554,26 @@ func genPgpFacts() {
 		}
 		return true
 	})
-	writeGen("PgpFacts", fmt.Sprintf("def pgpLifetimeZeroIsNever : Bool := %v\n", zero))
+	keeps := pgpKdfKeepsExtra()
+	writeGen("PgpFacts", fmt.Sprintf("def pgpLifetimeZeroIsNever : Bool := %v\ndef pgpKdfKeepsExtra : Bool := %v\n", zero, keeps))
 	facts["pgp.lifetimeZeroIsNever"] = zero
+	facts["pgp.kdfKeepsExtra"] = keeps
+}
+
+// genPgpKdfFact: appended to Gen/PgpFacts.lean by genPgpFacts (kept separate for readability)
+func pgpKdfKeepsExtra() bool {
+	f := parse("internal/openpgp/packet/public_key.go")
+	keeps := false
+	for _, d := range f.Decls {
+		fd, ok := d.(*ast.FuncDecl)
+		if !ok || fd.Recv == nil || fd.Name.Name != "serialize" {
+			continue
+		}
+		if len(fd.Recv.List) == 1 && strings.Contains(nodeText(fd.Recv.List[0].Type), "ecdhKdf") {
+			t := nodeText(fd.Body)
+			// the length octet accounts for the extra octets and they are written after the three defined ones
+			keeps = strings.Contains(t, "0x03 + len(f.extra)") && strings.Contains(t, "f.extra...")
+		}
+	}
+	return keeps
 }
